@@ -63,10 +63,10 @@ func (w *world) storeTips() (ft, bt int, tip int) {
 	return int(fh), int(bh), w.hid(*th)
 }
 
-var liarModes = []string{"omit-c", "omit-c", "extra-c", "opret-c", "adv-true", "adv-silent"}
+var liarModes = []string{"omit-c", "omit-c", "extra-c", "opret-c", "adv-true", "adv-silent", "zero"}
 
 // planRound chooses behaviours for np peers for the batch start..stop.
-func (w *world) planRound(np, start, stop, tip int, forced []string) []*rpeer {
+func (w *world) planRound(np, start, stop, tip int, forced []string, forcedD []int) []*rpeer {
 	r := w.r
 	n := stop - start + 1
 	truth := make([]int, 0, n)
@@ -75,7 +75,9 @@ func (w *world) planRound(np, start, stop, tip int, forced []string) []*rpeer {
 	}
 	// heights at which deviations happen (shared, so that several peers collide)
 	var D []int
-	if n > 0 {
+	if forcedD != nil {
+		D = forcedD
+	} else if n > 0 {
 		D = append(D, start+r.Intn(n))
 		if n > 1 && r.Intn(3) == 0 {
 			D = append(D, start+r.Intn(n))
@@ -159,7 +161,7 @@ func (w *world) planRound(np, start, stop, tip int, forced []string) []*rpeer {
 					rp.served[h] = -1
 				}
 				kind = mode
-				if r.Intn(2) == 0 {
+				if r.Intn(2) == 0 || mode == "zero" {
 					break
 				}
 			}
@@ -294,6 +296,10 @@ func (w *world) serve(ps []*rpeer, disc bool) {
 }
 
 func (w *world) tipRound(np int, disc bool, forced []string) (ret string) {
+	return w.tipRoundAt(np, disc, forced, nil)
+}
+
+func (w *world) tipRoundAt(np int, disc bool, forced []string, forcedD []int) (ret string) {
 	ft, bt, tip := w.storeTips()
 	start := ft + 1
 	stop := bt
@@ -301,7 +307,7 @@ func (w *world) tipRound(np int, disc bool, forced []string) (ret string) {
 		stop = start + wire.MaxCFHeadersPerMsg - 1
 	}
 	w.gbFail = map[int]bool{}
-	ps := w.planRound(np, start, stop, tip, forced)
+	ps := w.planRound(np, start, stop, tip, forced, forcedD)
 	w.serve(ps, disc)
 	ret = guard(func() string { return errKind(w.v.GetUncheckpointedCFHeaders()) })
 	w.onQuery = nil
@@ -343,7 +349,11 @@ func (w *world) directWrite() {
 		}
 		return fmt.Sprintf("ok %d %d", w.hid(*h), ht)
 	})
-	w.t.Hit("wr." + strings.ReplaceAll(ret[:mini(len(ret), 8)], " ", "-"))
+	if strings.HasPrefix(ret, "ok") {
+		w.t.Hit("wr.ok")
+	} else {
+		w.t.Hit("wr." + strings.ReplaceAll(ret, " ", "-"))
+	}
 	w.t.Op(fmt.Sprintf("wr %d %d %s", prev, w.chain[ft+n].id, ints(fids)), ret+" | "+w.dump())
 }
 
@@ -388,7 +398,7 @@ func (w *world) begin(kind string, np int, disc bool, l0, f0 int, extra string) 
 	w.t.Line("blk 0 %d => -", w.chain[0].trueFid)
 	ids := append([]int{0}, w.extend(l0)...)
 	w.prefill(f0)
-	w.t.Op(fmt.Sprintf("init %s ft %d", ints(ids), f0), "- | "+w.dump())
+	w.t.Op(fmt.Sprintf("init %s fs %s", ints(ids), ints(w.trueHdr[:f0+1])), "- | "+w.dump())
 }
 
 // tipCase: random history on the at-tip path.
@@ -423,6 +433,17 @@ func tipCase(w *world, nops int) {
 	}
 }
 
+// probeZero: one honest peer and one peer advertising the all-zero filter hash
+// (the "unset" sentinel of checkForCFHeaderMismatch) and serving no filter.
+// Returns true when the false header was committed.
+func probeZero(w *world) bool {
+	w.reset(nil)
+	w.begin("tip", 2, true, 3, 2, " probe zero")
+	w.tipRound(2, true, []string{"honest", "zero"})
+	ft, _, tip := w.storeTips()
+	return ft == 3 && tip != w.trueHdr[len(w.trueHdr)-1]
+}
+
 // probeF12: one honest peer, one peer that does not serve the filter, one peer
 // whose false filter is self-consistent but omits an output script.  Returns
 // true when the false header was committed.
@@ -441,7 +462,7 @@ func run(t *tr.W, thorough bool) {
 	}
 	r := tr.Rng(303)
 	w := newWorld(t, r, nil)
-	defer w.close()
+	defer func() { w.close() }()
 	// deterministic probe of the recorded finding: retried until the map order
 	// lets the false header through (bounded)
 	tries := 0
@@ -453,9 +474,29 @@ func run(t *tr.W, thorough bool) {
 		}
 	}
 	t.Stats["probe.f12.tries"] = tries
+	tries = 0
+	for tries < 40 {
+		tries++
+		if probeZero(w) {
+			t.Hit("probe.zero.false-header-committed")
+			break
+		}
+	}
+	t.Stats["probe.zero.tries"] = tries
+	if probeHardTip(w) {
+		t.Hit("probe.hard-tip.checkpoint-contradicted")
+	}
 	for i := 0; i < 120*budget; i++ {
 		tipCase(w, 3+r.Intn(6))
 	}
+	w.close()
+	for _, sc := range []string{"false-partial", "store-disagrees", "hard"} {
+		cpCase(t, r, sc)
+	}
+	for i := 0; i < 5*budget; i++ {
+		cpCase(t, r, "random")
+	}
+	w = newWorld(t, r, nil)
 	if os.Getenv("VERIF_C03_PROBES") != "" {
 		probes(w)
 	}
